@@ -210,7 +210,37 @@ func (s *Set) M__xor__(other Object) (Object, error) {
 	return ret, nil
 }
 
+// inplace replaces the items of s with those of the set computed by op,
+// so that every reference to s sees the result of s op= other
+func (s *Set) inplace(op func(Object) (Object, error), other Object) (Object, error) {
+	res, err := op(other)
+	if err != nil {
+		return nil, err
+	}
+	newSet, ok := res.(*Set)
+	if !ok {
+		return res, nil
+	}
+	s.items = newSet.items
+	return s, nil
+}
+
+func (s *Set) M__iand__(other Object) (Object, error) { return s.inplace(s.M__and__, other) }
+func (s *Set) M__ior__(other Object) (Object, error)  { return s.inplace(s.M__or__, other) }
+func (s *Set) M__isub__(other Object) (Object, error) { return s.inplace(s.M__sub__, other) }
+func (s *Set) M__ixor__(other Object) (Object, error) { return s.inplace(s.M__xor__, other) }
+
+// A frozenset is immutable: its augmented assignments build a new object
+func (s *FrozenSet) M__iand__(other Object) (Object, error) { return NotImplemented, nil }
+func (s *FrozenSet) M__ior__(other Object) (Object, error)  { return NotImplemented, nil }
+func (s *FrozenSet) M__isub__(other Object) (Object, error) { return NotImplemented, nil }
+func (s *FrozenSet) M__ixor__(other Object) (Object, error) { return NotImplemented, nil }
+
 // Check interface is satisfied
+var _ I__iand__ = (*Set)(nil)
+var _ I__ior__ = (*Set)(nil)
+var _ I__isub__ = (*Set)(nil)
+var _ I__ixor__ = (*Set)(nil)
 var _ I__len__ = (*Set)(nil)
 var _ I__bool__ = (*Set)(nil)
 var _ I__iter__ = (*Set)(nil)
